@@ -31,6 +31,8 @@ func init() {
   VectorPdfRegistry["vector:mixture distribution"]          = new(Mixture)
   VectorPdfRegistry["vector:normal distribtion"]            = new(NormalDistribution)
   VectorPdfRegistry["vector:skew normal distribtion"]       = new(SkewNormalDistribution)
+  VectorPdfRegistry["vector:t distribtion"]                 = new(TDistribution)
+  VectorPdfRegistry["vector:logistic regression"]           = new(LogisticRegression)
   VectorPdfRegistry["vector:scalar id"]                     = new(ScalarId)
   VectorPdfRegistry["vector:scalar iid"]                    = new(ScalarIid)
   VectorPdfRegistry["vector:vector id"]                     = new(VectorId)
